@@ -70,6 +70,8 @@ def systematic(tier):
                             for kind in (('plumpy', 'loop') if adapter != 'kiwi' else ('kiwi',)):
                                 cases.append({'adapter': adapter, 'depth': depth, 'level': level, 'outcome': outcome,
                                               'order': list(order), 'gaps': [gap] * (level + 1), 'future_kind': kind})
+    for inner in ('value', 'cancel'):
+        cases.append({'adapter': 'create_task', 'awaits': [0], 'outcome': 'future', 'inner': inner, 'others': 1})
     for outcome in ('value', 'exc', 'factory_raises'):
         cases.append({'adapter': 'create_task', 'awaits': [0, 1], 'outcome': outcome, 'others': 1})
         cases.append({'adapter': 'create_task', 'awaits': [0, 1], 'outcome': outcome, 'others': 1, 'from_thread': True})
@@ -98,7 +100,8 @@ def random_case(rng, tier):
                                                              'run_raises_twice', 'run_interrupted_twice'])}
     if adapter == 'create_task':
         return {'adapter': 'create_task', 'awaits': [rng.choice([0, 0.5, 1]) for _ in range(rng.randint(0, 3))],
-                'outcome': rng.choice(['value', 'value', 'exc', 'factory_raises']), 'others': rng.randint(0, 2),
+                'outcome': rng.choice(['value', 'value', 'exc', 'factory_raises', 'future']), 'inner': rng.choice(['value', 'cancel']),
+                'others': rng.randint(0, 2),
                 'from_thread': rng.random() < 0.4, 'default_loop': rng.random() < 0.25}
     depth = rng.randint(1, 4)
     outcome = rng.choice(['value', 'value', 'exc', 'cancel'])
@@ -289,7 +292,15 @@ def _run_create_task(case, plumpy, loop, result, events):
             events.append(('coro', 'woke', loop.time()))
         if case['outcome'] == 'exc':
             raise boom
+        if case['outcome'] == 'future':
+            # the coroutine's result is itself a loop future (it completes, or is cancelled, later): a value like any other
+            inner = loop.create_future()
+            inner_box.append(inner)
+            loop.call_later(0.5, inner.cancel if case.get('inner') == 'cancel' else (lambda: inner.set_result('inner')))
+            return inner
         return ('payload', len(case['awaits']))
+
+    inner_box = []
 
     async def other(index):
         await asyncio.sleep(0.25 * (index + 1))
@@ -339,6 +350,12 @@ def _run_create_task(case, plumpy, loop, result, events):
     events.append(('final', got[0]))
     if calls[0] != 1:
         result.violate('wrong_outcome', 'create_task:calls', f'the coroutine function was called {calls[0]} times')
+    if case['outcome'] == 'future':
+        if not (future.done() and not future.cancelled() and future.exception() is None and inner_box
+                and future.result() is inner_box[0]):
+            result.violate('wrong_outcome' if future.done() else 'not_completed', 'create_task:future_result',
+                           f'the coroutine returned a future; the future of create_task ended with {got!r} instead of that object')
+        return
     if case['outcome'] == 'value' and got != ('value', ('payload', len(case['awaits']))):
         result.violate('wrong_outcome' if got[0] != 'pending' else 'not_completed', 'create_task:value', f'got {got!r}')
     if case['outcome'] in ('exc', 'factory_raises') and not (future.done() and not future.cancelled()
